@@ -854,7 +854,14 @@ class SymEval:
     def e_closure(self, n, env):
         if not hasattr(self, "closure_envs"):
             self.closure_envs = {}
+            self.closure_nodes = {}
+        if self.depth > 0:
+            # a closure created inside an expanded helper: one instance per expansion (its captured arguments differ)
+            self._clo_inst = getattr(self, "_clo_inst", 0) + 1
+            n = dict(n)
+            n["def"] = "%s@%d" % (n.get("def"), self._clo_inst)
         self.closure_envs[n.get("def")] = dict(env)
+        self.closure_nodes[n.get("def")] = n
         return ("closure", n, dict(env))
 
     def e_block(self, n, env):
